@@ -31,7 +31,8 @@ RULE = (
     "recursively, None is missing), every provided leaf present in the result, conflicts raise ValueError without "
     "overwrite and the later value wins with it, to_partial/from_partial round trip; any other exception is a "
     "violation. Variant overlap: the same data three times by different ways of obtaining it (mixed provenance at every "
-    "nested position); probes: nested objects made with version-less class handles, recursion through a subclass. "
+    "nested position); probes: nested objects made with version-less class handles, recursion through a subclass, "
+    "exhaustive class/subclass operand pairs at one nested position with disjoint fields (no raise, union of values, associative). "
     "Non-trivial = triple with >=1 falsy provided leaf, or a nested model on >=2 sides, or >=2 origins; "
     "distinct by (class shape, origins, recipes)"
 )
@@ -41,7 +42,7 @@ ASSUMPTIONS = ["associativity only where the classes at one nested position are 
                "not asserted: __fields_set__ of results; ignore_invalid=True"]
 REQUIRED_CLASSES = {"all": ["falsy_leaf", "nested_both_sides", "origin_json", "origin_yaml", "origin_loader", "origin_complete",
                             "origin_harvester", "conflict_raises", "overwrite_later_wins", "assoc_checked", "roundtrip_complete",
-                            "installed", "generated", "cross_class_operand"]}
+                            "installed", "generated", "cross_class_operand", "nested_chain_subclass_left"]}
 BUDGET_S = {"quick": 900, "thorough": 3 * 3600}
 
 
@@ -727,6 +728,68 @@ def check_recursive_family(rec):
         rec.case(nt_key=["recursive-family", first], classes=["recursive_family_through_subclass"], sample=case)
 
 
+def check_nested_inheritance_chain(rec):
+    """Exhaustive: one nested position whose operands are objects of a class and of its subclass (either order, either
+    side the subclass), providing DISJOINT fields: the merge is non-conflicting, so it must not raise (with and without
+    allow_overwrite) and the nested result carries every provided value; three operands are associative."""
+    import itertools
+    from typing import List, Optional
+
+    from pydantic import BaseModel
+    from metador_core.schema.core import MetadataSchema
+    from metador_core.schema.partial import PartialFactory
+
+    def family(root):
+        class Base(root):
+            a: Optional[int]
+            b: Optional[int]
+
+        class Child(Base):
+            c: Optional[int]
+
+        class Outer(root):
+            inner: Optional[Base]
+            tags: List[str] = []
+        return Base, Child, Outer
+
+    for rootname, root in (("BaseModel", BaseModel), ("MetadataSchema", MetadataSchema)):
+        Base, Child, Outer = family(root)
+        P = PartialFactory.get_partial(Outer) if root is BaseModel else Outer.Partial
+        kl = {"Base": Base, "Child": Child}
+        for lc, rc, wa, wb, wc, ow in itertools.product(kl, kl, "-LR", "-LR", "-LR", (False, True)):
+            if (wc == "L" and lc == "Base") or (wc == "R" and rc == "Base"):
+                continue
+            want = {k: v for k, v, w in (("a", 0, wa), ("b", 2, wb), ("c", 3, wc)) if w != "-"}
+            lv = {k: v for k, v, w in (("a", 0, wa), ("b", 2, wb), ("c", 3, wc)) if w == "L"}
+            rv = {k: v for k, v, w in (("a", 0, wa), ("b", 2, wb), ("c", 3, wc)) if w == "R"}
+            case = dict(kind="nested-chain", root=rootname, left=lc, right=rc, left_values=lv, right_values=rv, overwrite=ow)
+            try:
+                left = P.to_partial(Outer(inner=kl[lc](**lv), tags=["x"]))
+                right = P.to_partial(Outer(inner=kl[rc](**rv), tags=["y"]))
+                third = P.to_partial(Outer(inner=Child(), tags=[]))
+            except Exception as e:  # noqa: BLE001
+                raise HarnessError(f"nested-chain fixture: {type(e).__name__}: {e}")
+            sig = f"{lc}+{rc}"
+
+            def inner_vals(m):
+                return {k: v for k, v in m.inner.__dict__.items() if v is not None and k in ("a", "b", "c")}
+            try:
+                got = inner_vals(left.merge_with(right, allow_overwrite=ow))
+                l3 = inner_vals(left.merge_with(right, allow_overwrite=ow).merge_with(third, allow_overwrite=ow))
+                r3 = inner_vals(left.merge_with(right.merge_with(third, allow_overwrite=ow), allow_overwrite=ow))
+            except Exception as e:  # noqa: BLE001
+                rec.fail(f"C14:nested-chain-merge-raises:{sig}", case, f"{type(e).__name__}: {str(e).splitlines()[0][:200]}",
+                         "non-conflicting merge succeeds")
+            else:
+                if got != want:
+                    rec.fail(f"C14:nested-chain-merge-loses-values:{sig}", case, got, want)
+                elif not (l3 == r3 == want):
+                    rec.fail(f"C14:nested-chain-not-associative:{sig}", case, [l3, r3], want)
+            rec.case(nt_key=["nested-chain", rootname, lc, rc, wa, wb, wc, ow] if lc != rc and lv and rv else None,
+                     classes=["nested_inheritance_chain"] + (["nested_chain_subclass_left"] if (lc, rc) == ("Child", "Base") else []),
+                     sample=case if lc != rc else None)
+
+
 def plan(tier, seed):
     inst = G.installed_schemas()
     sh = [dict(name=f"installed-{n}", kind="installed", schema=n, version=list(v)) for n, v, _ in inst]
@@ -747,6 +810,7 @@ def run_shard(shard, tier, seed, rec):
         rec.case(classes=["probe_datetime"])
         check_versionless_nested(rec)
         check_recursive_family(rec)
+        check_nested_inheritance_chain(rec)
         return
     if shard["kind"] == "installed":
         from metador_core.plugins import schemas
